@@ -1,6 +1,8 @@
 package profile
 
 import (
+	"bytes"
+	"encoding/json"
 	"fmt"
 	"github.com/aml-org/amf-custom-validator/internal/parser/path"
 	"strings"
@@ -30,7 +32,13 @@ func (r ScalarSetRule) Negate() Rule {
 func (r ScalarSetRule) JSONValues() string {
 	var acc []string
 	for _, v := range r.Argument {
-		acc = append(acc, fmt.Sprintf("\\\"%s\\\"", v))
+		var quoted bytes.Buffer
+		encoder := json.NewEncoder(&quoted)
+		encoder.SetEscapeHTML(false)
+		if err := encoder.Encode(v); err != nil {
+			panic(err)
+		}
+		acc = append(acc, strings.TrimSuffix(quoted.String(), "\n"))
 	}
 
 	return fmt.Sprintf("[%s]", strings.Join(acc, ","))
